@@ -79,6 +79,8 @@ def main():
     for k in range(480 if thorough else 96):
         nm, p, f, meta = enginegen.decl_case(ck.rng, k)
         pairs.append(("p.patch", p, "a.go", f)); names.append(nm); metas.append(meta)
+    for nm, p, f, meta in enginegen.extra_pairs():
+        pairs.append(("p.patch", p, "a.go", f)); names.append(nm); metas.append(meta)
     res = enginecorr.run(pairs)
     for name, pair, o, meta in zip(names, pairs, res, metas):
         ck.count((pair[1], pair[3]), nontrivial=not o["skipped"])
